@@ -20,6 +20,9 @@ impl NameMap {
             "ascii" => vec!["a", "b", "c", "d", "e", "f"],
             // siblings that are string prefixes of each other (MemoryFS lists by string prefix)
             "prefix" => vec!["a", "ab", "a.b", "abc", "a-", "a b"],
+            // sibling = directory name + a character that sorts BEFORE '/' (an ordered map puts it between
+            // the directory and the directory's children)
+            "prefix2" => vec!["a", "a.b", "a-", "a b", "ab", "a+b"],
             // dots in every position (".." inside a component is an ordinary name, only "." and ".." are special)
             "dotted" => vec!["..a", "x..tar.gz", "a.", "...", ".hidden", ".b."],
             "dotted2" => vec![".hidden", "a..", "x.tar.gz", "....", "b.c", ". ."],
